@@ -189,13 +189,17 @@ LoadStatus DepsLog::Load(const string& path, State* state, string* err) {
 
   long offset = ftell(f);
   bool read_failed = false;
+  bool torn_header = false;
   int unique_dep_record_count = 0;
   int total_dep_record_count = 0;
   for (;;) {
     unsigned size;
-    if (fread(&size, sizeof(size), 1, f) < 1) {
+    size_t header_bytes = fread(&size, 1, sizeof(size), f);
+    if (header_bytes < sizeof(size)) {
       if (!feof(f))
         read_failed = true;
+      else if (header_bytes != 0)
+        torn_header = true;  // 1-3 bytes of a size word: a torn write.
       break;
     }
     bool is_deps = (size >> 31) != 0;
@@ -292,6 +296,13 @@ LoadStatus DepsLog::Load(const string& path, State* state, string* err) {
   }
 
   fclose(f);
+
+  if (torn_header) {
+    // Drop the partial size word, or the next session appends its records
+    // behind it and they are all discarded by the load after that.
+    if (!Truncate(path, offset, err))
+      return LOAD_ERROR;
+  }
 
   // Rebuild the log if there are too many dead records.
   int kMinCompactionEntryCount = 1000;
